@@ -11,6 +11,10 @@ def obligations(tier):
                     claim="callback_readdata from any state satisfying its precondition (remaining read fits the limit): body accumulation stays inside the allocation (capped realloc), no assertion failure, waits for min(remaining, 1 MiB), at most one callback / wait / hand-over", **common))
     obs.append(dict(name="toeof-and-content-length-stages", entry="h_toeof_gotclen", defs=["NMAX=%d" % nm], replace=["callback_readdata:stub_readdata"],
                     claim="callback_read_toeof and get_body_gotclen: oversized bodies reported as (size_t)(-1) with no buffer, otherwise within the limit; no assertion failure", **common))
+    for hd in (16, 17):
+        c2 = dict(common); c2["unwindset"] = ["findeol#0:%d" % (hd + 4), "vhs_scan#0:%d" % (hd + 5), "vhs_scan#1:%d" % (hd + 5)]; c2["bounds"] = "%d hex digits + CR LF, every digit symbolic; body allocation <= 8 bytes, limits fully symbolic" % hd
+        obs.append(dict(name="chunk-header-stage-hex%d" % hd, entry="h_chunkhdr_long", defs=["NMAX=2", "HEXD=%d" % hd], replace=["callback_readdata:stub_readdata"],
+                        claim="callback_chunkedheader on every chunk-size line of %d hex digits (values up to and beyond 2^64) with a body that may already hold data: the size handed to the data stage is the numeral's value and fits the remaining room (the comparison cannot wrap); too big => (size_t)(-1) report; beyond size_t => failure" % hd, **c2))
     REP = ["callback_chunkedheader:stub_chunkhdr", "get_body_gotclen:stub_gotclen", "callback_read_toeof:stub_toeof", "callback_read_header:stub_readheader"]
     REPP = REP + ["findeol:stub_findeol"]
     SHAPES = [("blank", [0]), ("status13", [13]), ("status13-h4", [13, 4]), ("status15-h3-h6", [15, 3, 6]), ("status13-clen17", [13, 17]), ("status9-h1", [9, 1])]
@@ -29,5 +33,5 @@ def obligations(tier):
     return obs
 SELFTESTS = [dict(name="str-models-vs-glibc", srcs=["/verif/models/selftest_str.c"], cflags=["-I/verif/models"], what="strcspn/strspn/strstr/stpcpy/sscanf(HTTP status line) models equal glibc on 2,000,000 strings"), dict(name="strto-models-vs-glibc", srcs=["/verif/models/selftest_strto.c"], cflags=["-I/verif/models"], what="strto models equal glibc on 3,000,000 strings")]
 TRUSTED = ["CBMC 6.11 C semantics", "cadical", "models/libc_strto.c"]
-ASSUMPTIONS = ["header parsing (callback_read_header, gotheaders), request construction and whole-stream runs have no obligations: that part of C08 is NOT decided here", "TLS variant outside the claim"]
+ASSUMPTIONS = ["whole-stream runs (all stages chained) have no obligation; stages are decided one at a time with hand-over contracts", "TLS variant outside the claim"]
 EXPLANATION = ""
